@@ -589,6 +589,18 @@ pub fn history_case<F: MonF>(cx: &mut Cx, idx: u64, seed: u64) {
                 };
                 check_fft_into::<F>(cx, &mut lived, &pr.a, n_arg, &mut rng);
                 cx.history.push(format!("fft_into len {} n_arg {}", la, n_arg));
+                if rng.chance(1, 2) {
+                    // the very same vector again, straight away, at another transform size (and back)
+                    let n_eff = if n_arg == 0 { nmin } else { n_arg };
+                    let n2 = if n_eff / 2 >= la.max(1) && rng.chance(1, 2) { n_eff / 2 } else { n_eff * 2 };
+                    check_fft_into::<F>(cx, &mut lived, &pr.a, n2, &mut rng);
+                    cx.history.push(format!("fft_into same vector n_arg {}", n2));
+                    cx.rep.inc("same_vector_at_two_sizes");
+                    if rng.chance(1, 2) {
+                        check_fft_into::<F>(cx, &mut lived, &pr.a, n_eff, &mut rng);
+                        cx.history.push(format!("fft_into same vector n_arg {}", n_eff));
+                    }
+                }
             }
             4 => {
                 check_fft_inv_into::<F>(cx, &mut lived, &pr, &want, &mut rng);
